@@ -57,6 +57,21 @@ func genPipe(r *rng.R, idx int, maxN int, focus int, allowQuit bool) pipeCase {
 		}
 		v := grammar.Generate(spec, r, tok)
 		pr := pipeReq{Kind: "valid", V: v, Req: v.Value()}
+		if r.Chance(1, 90) {
+			// a request with more than a thousand arguments (variadic commands take them; 1024 is a capacity the
+			// array reader starts with)
+			cnt := rng.Pick(r, []int{1023, 1024, 1025, 1500, 2100})
+			name := rng.Pick(r, []string{"DEL", "RPUSH", "SADD", "MGET", "EXISTS"})
+			args := []string{name}
+			if name == "RPUSH" || name == "SADD" {
+				args = append(args, tok+":k")
+			}
+			for k := 0; k < cnt; k++ {
+				args = append(args, fmt.Sprintf("%s:%d", tok, k))
+			}
+			pc.Reqs = append(pc.Reqs, pipeReq{Kind: "many-arguments", Req: resp.Cmd(args...)})
+			continue
+		}
 		if r.Chance(1, 60) {
 			// a request with one large argument (around 64 KiB and beyond) in the middle of the pipeline
 			size := rng.Pick(r, []int{65533, 65534, 65535, 65536, 65537, 70000, 131072, 200000})
